@@ -128,6 +128,10 @@ fn default_entries() -> Vec<Entry> {
 		// canaries: everything below is outside `root`
 		f("secret.txt", 1000), d("sib"), f("sib/c.txt", 1001), f("sib/index.html", 1002), f("index.html", 1003),
 		f("a.txt", 1004), d("rootx"), f("rootx/a.txt", 1005), f("root.br", 1006), f("root.gz", 1007),
+		// siblings whose *path string* has the root's path as a textual prefix
+		f("rootx/index.html", 1008), f("rootx/only.txt.br", 1009), f("rootx/gz.txt.gz", 1010),
+		d("root-private"), f("root-private/secret.txt", 1011), f("root-private/index.html", 1012), f("root.bak", 1013),
+		d("root.d"), f("root.d/index.html.br", 1014), d("root2x"), f("root2x/a.txt", 1015),
 		d("root2"), f("root2/index.html", 30), f("root2/a.txt", 31), f("root2/r2.txt", 32),
 	]
 }
@@ -612,6 +616,7 @@ fn decorate(rng: &mut Rng, w_base: &Path, prefix: &str, segs: &[String]) -> Stri
 		2 => t.push_str(&format!("//{}/root", w_base.display())),                   // absolute path of the root
 		3 => t.push_str(&format!("//{}", w_base.display())),                        // absolute path of its parent
 		4 => t.push_str(&format!("//{}/root/..", w_base.display())),
+		5 => t.push_str(&format!("//{}/{}", w_base.display(), rng.pick(&["rootx", "root-private", "root.d", "root2x", "root2", "root.br"]))),
 		_ => {}
 	}
 	t.push('/');
@@ -693,7 +698,7 @@ fn run_group(out: &mut Out, base: &Path, idx: usize, g: &Group, shrink_budget: &
 pub fn run(args: &Args) {
 	quiet_panics();
 	let mut out = Out::new(&args.out);
-	out.rule = "raw HTTP/1.1 GET requests (target bytes sent verbatim) against `versatiles serve` with folder / tar static sources, with and without URL prefix, and a multi-source configuration; fixture with canary files outside the roots; targets: all sequences of depth ≤3 (thorough ≤4) over a small segment alphabet (names, '.', '..', empty, %2e%2e, …) plus seeded random sequences of depth ≤6 over a large alphabet, plus guided walks (existing files, directories and archive members perturbed by '.', empty, 'x/..', '..', partially encoded segments, dropped .br/.gz extensions) with extra leading slashes, absolute-path injections, trailing slash, ?query/#fragment; non-trivial = the path contains a '..', '.', empty, percent-encoded or backslash segment or an absolute form; distinct by case text".into();
+	out.rule = "raw HTTP/1.1 GET requests (target bytes sent verbatim) against `versatiles serve` with folder / tar static sources, with and without URL prefix, and a multi-source configuration; fixture with canary files outside the roots; targets: all sequences of depth ≤3 (thorough ≤4) over a small segment alphabet (names, '.', '..', empty, %2e%2e, …) plus seeded random sequences of depth ≤6 over a large alphabet, plus absolute-path targets (//, /// after the URL prefix) at every sibling whose path string extends a root's path string (rootx/…, root.br, root-private/…), plus guided walks (existing files, directories and archive members perturbed by '.', empty, 'x/..', '..', partially encoded segments, dropped .br/.gz extensions) with extra leading slashes, absolute-path injections, trailing slash, ?query/#fragment; non-trivial = the path contains a '..', '.', empty, percent-encoded or backslash segment or an absolute form; distinct by case text".into();
 	std::fs::create_dir_all(&args.out).unwrap();
 	let base = std::fs::canonicalize(&args.out).unwrap().join("w");
 	let base_s = base.display().to_string();
@@ -827,6 +832,41 @@ pub fn run(args: &Args) {
 			t.push_str(&segs.join("/"));
 			if rng.chance(1, 6) { t.push('/'); }
 			targets.push(t);
+		}
+		// guided: absolute right operands (repeated slashes after the URL prefix make `PathBuf::join`
+		// replace the base) that point at siblings whose path string merely *extends* the root's path
+		// string (rootx/…, root.br, root-private/…) – a textual prefix test would accept them
+		for s in sources {
+			if let Backend::Folder(r) = &s.backend {
+				let pfx = if s.prefix.is_empty() { String::new() } else { norm_prefix(&s.prefix).trim_end_matches('/').to_string() };
+				let inside = format!("{r}/");
+				let mut outs: Vec<String> = vec![];
+				for e in &entries {
+					let p = match e { Entry::Dir(p) => p, Entry::File(p, _) => p };
+					if p.starts_with(r.as_str()) && !p.starts_with(&inside) && p != r {
+						outs.push(p.clone());
+						for ext in [".br", ".gz"] {
+							if let Some(q) = p.strip_suffix(ext) { outs.push(q.to_string()); }
+						}
+						if let Some(q) = p.strip_suffix("/index.html") { outs.push(format!("{q}/")); }
+					}
+				}
+				outs.sort();
+				outs.dedup();
+				for p in &outs {
+					let abs = format!("{}/{}", base.display(), p);
+					for lead in ["//", "///", "////"] {
+						for pf in [pfx.as_str(), ""] {
+							targets.push(format!("{pf}{lead}{}", &abs[1..]));
+							targets.push(format!("{pf}{lead}{}/", &abs[1..]));
+						}
+					}
+					// with no-op noise inside the absolute path
+					targets.push(format!("{pfx}///{}", abs[1..].replace('/', "/./")));
+					targets.push(format!("{pfx}///{}", abs[1..].replace('/', "//")));
+					targets.push(format!("{pfx}///{}?x", &abs[1..]));
+				}
+			}
 		}
 		let g = Group { entries: entries.clone(), sources: sources.clone(), targets };
 		run_group(&mut out, &base, ci, &g, &mut shrink_budget);
